@@ -44,7 +44,8 @@ def plan(tier):
 
 def gen_case(rng, params, idx):
     # ovld_lb: every change is made on a parent that is never called itself; calls and probes go to a linkback copy
-    target = "mtm" if idx % 4 == 3 else "ovld_lb" if idx % 4 == 1 else "ovld"
+    # ovld_chain: the copy under test is a *plain* copy of a linkback copy of the function that is modified
+    target = "mtm" if idx % 4 == 3 else "ovld_lb" if idx % 4 == 1 else "ovld_chain" if idx % 8 == 6 else "ovld"
     hier = gen.gen_hierarchy(rng, rng.randint(2, 5), attrs=False, p_multi=0.5)
     pool = [s["name"] for s in hier] + ["object", "int", "str"]
     npos = rng.choice([1, 1, 2])
@@ -125,7 +126,10 @@ def _check_ovld(spec, res, env):
     if spec.get("sibling"):
         S = H.copy(linkback=True)       # derived *before* the copy under test: it is brought up to date first
     # what is called: the function itself, or a linkback copy of it (the parent is then never called)
-    C = H.copy(linkback=True) if spec["target"] == "ovld_lb" else H
+    C = H.copy(linkback=True) if spec["target"] in ("ovld_lb", "ovld_chain") else H
+    if spec["target"] == "ovld_chain":
+        C = C.copy()
+        res.count("histories_ovld_chain")
     if C is not H:
         res.count("histories_ovld_linkback_child")
     if S is not None:
@@ -175,8 +179,11 @@ def _check_ovld(spec, res, env):
                     pass
             try:
                 H.register(fn, priority=m.get("prio", 0))
-            except TypeError:
-                if S is None or fn not in H.defns.values():
+            except Exception as e:  # noqa: BLE001
+                if "locked for modifications" in str(e) and spec["target"] == "ovld_chain":
+                    res.count("modifications_refused_locked")     # a refusal is fine, silent drift is not
+                    continue
+                if not isinstance(e, TypeError) or S is None or fn not in H.defns.values():
                     raise
                 res.count("register_raised_for_the_sibling_only")      # the parent did take the method
             live.append(m)
@@ -184,8 +191,16 @@ def _check_ovld(spec, res, env):
             res.count("unreg_ops")
             if called:
                 nontrivial = True
-            m = next(x for x in live if x["mid"] == op[1])
-            H.unregister(hfn[m["mid"]])
+            m = next((x for x in live if x["mid"] == op[1]), None)
+            if m is None:
+                continue        # its registration had been refused (locked)
+            try:
+                H.unregister(hfn[m["mid"]])
+            except Exception as e:  # noqa: BLE001
+                if "locked for modifications" in str(e) and spec["target"] == "ovld_chain":
+                    res.count("modifications_refused_locked")
+                    continue
+                raise
             live.remove(m)
         res.count("mutations")
         if not used:
